@@ -1790,4 +1790,217 @@ theorem sm_family_accept {n : Nat} {s : DsStep.S} {ms : Spec.DSMon.S} (h : Rel n
     case smMin => exact sm_accept_core h hn hs (e := .getmin) rfl trivial
     case smFree => exact sm_free_accept h hs
 
+/-! ## object pool, allocation schedule, `end` -/
+
+theorem mpAdmit_inUse {u u' : List Nat} {e : MpOp} {an : MpAns} (h : mpAdmit u e an = some u') :
+    u' = mpInUse u e an := by
+  obtain ⟨obj, refused⟩ := an
+  cases e with
+  | malloc =>
+    cases obj with
+    | none => simp only [mpAdmit] at h; split at h <;> simp_all [mpInUse]
+    | some x => simp only [mpAdmit] at h; split at h <;> simp_all [mpInUse]
+  | free x => simp only [mpAdmit] at h; split at h <;> simp_all [mpInUse]
+
+theorem mp_step_refused (p : MPool.MP) (e : MpOp) (m : Mem) :
+    (MPool.step objSize p e m).1.refused = ((MPool.step objSize p e m).2.2.refusals != m.refusals) := by
+  cases e <;> rfl
+
+theorem mp_malloc_accept {n : Nat} {s : DsStep.S} {ms : Spec.DSMon.S} (h : Rel n s ms) : StepGoal n s ms .mpMalloc := by
+  obtain ⟨u', hadm, hR⟩ := MPool.step_ok objSize s.mp .malloc s.m s.inUse _ h.mp trivial
+  have hu := mpAdmit_inUse hadm
+  have hext := mp_step_ext objSize s.mp .malloc s.m
+  have hrfd := mp_step_refused s.mp .malloc s.m
+  rw [← rf_pos hext] at hrfd
+  have hin := h.inUse
+  unfold StepGoal
+  rw [mp_stepOp s .mpMalloc .malloc rfl]
+  simp only
+  rw [← hu]
+  generalize MPool.step objSize s.mp .malloc s.m = r at *
+  obtain ⟨⟨obj, refused⟩, p', m'⟩ := r
+  simp only at hadm hR hext hrfd ⊢
+  rw [hrfd] at hadm
+  cases obj with
+  | none =>
+    simp only [mpObjOf, Out.ans, monStep, hin]
+    simp only [Bool.false_eq_true, if_false, Option.isNone_none, Bool.not_true, and_false, hadm]
+    exact ⟨trivial, ⟨h.capped.ext hext, h.ea, h.eq, h.sm.mono (Nat.le_succ _), hR, rfl⟩⟩
+  | some x =>
+    simp only [mpObjOf, Out.ans, monStep, hin]
+    simp only [Bool.false_eq_true, if_false, Option.isNone_some, false_and, hadm]
+    exact ⟨trivial, ⟨h.capped.ext hext, h.ea, h.eq, h.sm.mono (Nat.le_succ _), hR, rfl⟩⟩
+
+/-- `mp_free x` / `mp_freenth` once the object is known -/
+theorem mp_free_core {n : Nat} {s : DsStep.S} {ms : Spec.DSMon.S} (h : Rel n s ms) {op : Op} {x : Nat}
+    (he : mpOpOf s.inUse op = some (.free x)) (hx : x ∈ s.inUse)
+    (hmon : ∀ rfn l2, monStep ms op (Out.mp rfn (mpObjOf op (.free x) { obj := none, refused := false }) l2).ans =
+      match mpAdmit ms.inUse (.free x) { obj := none, refused := false } with
+      | some u => ({ ms with inUse := u }, none)
+      | none => (ms, some "free of an object not in use")) : StepGoal n s ms op := by
+  obtain ⟨u', hadm, hR⟩ := MPool.step_ok objSize s.mp (.free x) s.m s.inUse _ h.mp hx
+  have hu := mpAdmit_inUse hadm
+  have hext := mp_step_ext objSize s.mp (.free x) s.m
+  have hin := h.inUse
+  unfold StepGoal
+  rw [mp_stepOp s op (.free x) he]
+  simp only
+  rw [← hu]
+  have hobj : mpObjOf op (.free x) (MPool.step objSize s.mp (.free x) s.m).1 =
+      mpObjOf op (.free x) { obj := none, refused := false } := by
+    cases op <;> rfl
+  rw [hobj, hmon, hin]
+  have : mpAdmit s.inUse (.free x) { obj := none, refused := false } = some (s.inUse.erase x) := by
+    simp [mpAdmit, hx]
+  have hu' : u' = s.inUse.erase x := by rw [hu]; rfl
+  rw [this]
+  exact ⟨rfl, ⟨h.capped.ext hext, h.ea, h.eq, h.sm.mono (Nat.le_succ _), hR, by rw [hu']⟩⟩
+
+theorem mp_free_accept {n : Nat} {s : DsStep.S} {ms : Spec.DSMon.S} (h : Rel n s ms) (x : Nat) :
+    StepGoal n s ms (.mpFree x) := by
+  have hin := h.inUse
+  by_cases hx : x ∈ s.inUse
+  · have hc : s.inUse.contains x = true := by simpa using hx
+    refine mp_free_core h (x := x) (by simp [mpOpOf, hx]) hx ?_
+    intro rfn l2
+    simp only [mpObjOf, Out.ans, monStep, Ans.isJust]
+    simp [hin, mpAdmit, hx]
+  · have hc : s.inUse.contains x = false := by simpa using hx
+    refine word_accept h .skip (by simp [stepOp, hx]) ?_
+    simp only [monStep, headOfWord, isJust_skip, if_true, hin, hc]
+    rfl
+
+theorem mp_freenth_accept {n : Nat} {s : DsStep.S} {ms : Spec.DSMon.S} (h : Rel n s ms) (j : Nat) :
+    StepGoal n s ms (.mpFreenth j) := by
+  have hin := h.inUse
+  cases hsel : (s.inUse.mergeSort (· ≤ ·))[j % (s.inUse.mergeSort (· ≤ ·)).length]? with
+  | none =>
+    have hemp : s.inUse = [] := by
+      cases hl : s.inUse with
+      | nil => rfl
+      | cons y rest =>
+        exfalso
+        have hlen : (s.inUse.mergeSort (· ≤ ·)).length = rest.length + 1 := by rw [List.length_mergeSort, hl]; rfl
+        rw [List.getElem?_eq_none_iff, hlen] at hsel
+        have := Nat.mod_lt j (Nat.succ_pos rest.length)
+        simp only [Nat.succ_eq_add_one] at this
+        omega
+    refine word_accept h .skip (by simp only [stepOp, hsel]) ?_
+    simp only [monStep, headOfWord, isJust_skip, if_true, hin, hemp]
+    rfl
+  | some x =>
+    have hx : x ∈ s.inUse := by
+      have := List.mem_of_getElem? hsel
+      exact List.mem_mergeSort.1 this
+    refine mp_free_core h (x := x) (by simp only [mpOpOf, hsel, Option.map_some]) hx ?_
+    intro rfn l2
+    simp only [mpObjOf, Out.ans, monStep, Ans.isJust]
+    simp [hin, mpAdmit, hx]
+
+/-- `mp_exit` (and the pool part of `end`): the pool frees its cache and its stack, the harness the objects still in
+use; a fresh pool; exactly `base` blocks stay allocated -/
+theorem poolExit_spec {s : DsStep.S} {base : Int} (hR : MPool.R s.mp s.m s.inUse base) :
+    Ext s.m (poolExit s).m ∧ (poolExit s).m.live = base ∧ MPool.R (poolExit s).mp (poolExit s).m (poolExit s).inUse base ∧
+    (poolExit s).ea = s.ea ∧ (poolExit s).eq = s.eq ∧ (poolExit s).sm = s.sm := by
+  have hlive : (poolExit s).m.live = base := by
+    simp only [poolExit]
+    rw [(MPool.foldl_free_live _ _).1, (MPool.atexit_spec s.mp s.m s.inUse base hR).2.2]; omega
+  refine ⟨?_, hlive, ?_, rfl, rfl, rfl⟩
+  · simp only [poolExit]; exact (mp_atexit_ext _ _).trans (foldl_free_ext _ _)
+  · have := MPool.init_R 4 (poolExit s).m
+    rw [hlive] at this
+    exact this
+
+theorem mp_exit_accept {n : Nat} {s : DsStep.S} {ms : Spec.DSMon.S} (h : Rel n s ms) : StepGoal n s ms .mpExit := by
+  obtain ⟨hext, _, hR, h1, h2, h3⟩ := poolExit_spec h.mp
+  unfold StepGoal
+  simp only [stepOp, Out.ans]
+  simp only [monStep]
+  refine ⟨rfl, ⟨h.capped.ext hext, by rw [h1]; exact h.ea, by rw [h2]; exact h.eq,
+    by rw [h3]; exact h.sm.mono (Nat.le_succ _), by rw [h1, h2, h3]; exact hR, rfl⟩⟩
+
+def eaF (o : Option EArray.EA) (m : Mem) : Mem := match o with | some a => EArray.free a m | none => m
+def eqF (o : Option EQueue.EQ) (m : Mem) : Mem := match o with | some q => EQueue.free q m | none => m
+def smF (o : Option SeqMap.SM) (m : Mem) : Mem := match o with | some x => SeqMap.free x m | none => m
+
+theorem eaF_spec (o : Option EArray.EA) (m : Mem) : Ext m (eaF o m) ∧ (eaF o m).live = m.live - eaBlk o := by
+  cases o with
+  | none => exact ⟨Ext.refl _, by simp [eaF, eaBlk]⟩
+  | some a => exact ⟨ea_free_ext _ _, by simp only [eaF, eaBlk]; rw [EArray.free_live]; omega⟩
+theorem eqF_spec (o : Option EQueue.EQ) (m : Mem) : Ext m (eqF o m) ∧ (eqF o m).live = m.live - eqBlk o := by
+  cases o with
+  | none => exact ⟨Ext.refl _, by simp [eqF, eqBlk]⟩
+  | some a => exact ⟨eq_free_ext _ _, by simp only [eqF, eqBlk]; rw [EQueue.free_live]; omega⟩
+theorem smF_spec (o : Option SeqMap.SM) (m : Mem) : Ext m (smF o m) ∧ (smF o m).live = m.live - smBlk o := by
+  cases o with
+  | none => exact ⟨Ext.refl _, by simp [smF, smBlk]⟩
+  | some a => exact ⟨sm_free_ext _ _, by simp only [smF, smBlk]; rw [SeqMap.free_live]; omega⟩
+
+theorem freeAll_eq (s : DsStep.S) :
+    freeAll s = { s with m := smF s.sm (eqF s.eq (eaF s.ea s.m)), ea := none, eq := none, sm := none } := rfl
+
+theorem freeAll_spec {n : Nat} {s : DsStep.S} {ms : Spec.DSMon.S} (h : Rel n s ms) :
+    Ext s.m (freeAll s).m ∧ MPool.R (freeAll s).mp (freeAll s).m (freeAll s).inUse 0 ∧
+    (freeAll s).ea = none ∧ (freeAll s).eq = none ∧ (freeAll s).sm = none := by
+  rw [freeAll_eq]
+  have h1 := eaF_spec s.ea s.m
+  have h2 := eqF_spec s.eq (eaF s.ea s.m)
+  have h3 := smF_spec s.sm (eqF s.eq (eaF s.ea s.m))
+  have hext := (h1.1.trans h2.1).trans h3.1
+  refine ⟨hext, R_transport h.mp hext ?_, rfl, rfl, rfl⟩
+  simp only
+  rw [h3.2, h2.2, h1.2]; omega
+
+theorem end_accept {n : Nat} {s : DsStep.S} {ms : Spec.DSMon.S} (h : Rel n s ms) : StepGoal n s ms .end_ := by
+  obtain ⟨hext1, hR1, e1, e2, e3⟩ := freeAll_spec h
+  obtain ⟨hext2, hlive, hR2, f1, f2, f3⟩ := poolExit_spec hR1
+  unfold StepGoal
+  simp only [stepOp, Out.ans, hlive]
+  simp only [monStep]
+  refine ⟨rfl, ⟨h.capped.ext (hext1.trans hext2), by rw [f1, e1]; rfl, by rw [f2, e2]; rfl, by rw [f3, e3]; rfl, ?_, rfl⟩⟩
+  rw [f1, f2, f3, e1, e2, e3]
+  exact hR2
+
+theorem sched_capped (mode k base : Nat) (m : Mem) : Capped { m with f := sched mode k base } := by
+  intro i sz hh
+  simp only [sched, Bool.and_eq_true, decide_eq_true_eq] at hh
+  exact hh.1.1
+
+theorem fail_accept {n : Nat} {s : DsStep.S} {ms : Spec.DSMon.S} (h : Rel n s ms) (op : Op)
+    (hop : match op with | .failat _ | .failfrom _ | .failoff => True | _ => False) : StepGoal n s ms op := by
+  have hmp := h.mp
+  cases op <;> simp only at hop <;> unfold StepGoal <;> simp only [stepOp, Out.ans, headOfWord] <;>
+    simp only [monStep, okOr] <;>
+    exact ⟨rfl, ⟨sched_capped _ _ _ _, h.ea, h.eq, h.sm.mono (Nat.le_succ _),
+      ⟨hmp.nodup, hmp.unodup, hmp.disj, hmp.sfresh, hmp.ufresh, hmp.slen, hmp.live⟩, h.inUse⟩⟩
+
+/-- **one protocol step**: from related states, for an operation the generators produce, after fewer than 2^63
+operations: the monitor accepts the model's answer and the states are related again -/
+theorem mon_step {n : Nat} {s : DsStep.S} {ms : Spec.DSMon.S} (h : Rel n s ms) (op : Op) (hok : OpOk op)
+    (hn : (n : Int) < SeqMap.INT64_MAX) : StepGoal n s ms op := by
+  cases op
+  case failat k => exact fail_accept h _ trivial
+  case failfrom k => exact fail_accept h _ trivial
+  case failoff => exact fail_accept h _ trivial
+  case end_ => exact end_accept h
+  case mpMalloc => exact mp_malloc_accept h
+  case mpFree x => exact mp_free_accept h x
+  case mpFreenth j => exact mp_freenth_accept h j
+  case mpExit => exact mp_exit_accept h
+  case eqInit r => exact eq_family_accept h _ hok trivial
+  case eqAdd seed => exact eq_family_accept h _ hok trivial
+  case eqDel => exact eq_family_accept h _ hok trivial
+  case eqLen => exact eq_family_accept h _ hok trivial
+  case eqGet pos => exact eq_family_accept h _ hok trivial
+  case eqSet pos seed => exact eq_family_accept h _ hok trivial
+  case eqDump => exact eq_family_accept h _ hok trivial
+  case eqFree => exact eq_family_accept h _ hok trivial
+  case smInit => exact sm_family_accept h hn _ hok trivial
+  case smAdd p => exact sm_family_accept h hn _ hok trivial
+  case smGet i => exact sm_family_accept h hn _ hok trivial
+  case smDel i => exact sm_family_accept h hn _ hok trivial
+  case smMin => exact sm_family_accept h hn _ hok trivial
+  case smFree => exact sm_family_accept h hn _ hok trivial
+  all_goals exact ea_family_accept h _ hok trivial
+
 end Percival.Proofs.DsStep
